@@ -112,8 +112,19 @@ class Tree:
 
             ns["prepare"] = prepare
         if node.get("start") is not None:
-            async def start(self) -> None:
-                await tree.run_steps(path, "start", node["start"])
+            if node.get("gen_start"):
+                from asphalt.core import context_teardown
+
+                @context_teardown
+                async def start(self) -> Any:
+                    # the part after the yield is a teardown callback of the context start_component() was called in
+                    await tree.run_steps(path, "start", node["start"])
+                    env.log("td-reg", f"gen:{path}")
+                    yield
+                    env.log("td", f"gen:{path}")
+            else:
+                async def start(self) -> None:
+                    await tree.run_steps(path, "start", node["start"])
 
             ns["start"] = start
         base: type = Component
